@@ -248,6 +248,7 @@ type Posting struct {
 	Indent  string   `json:"indent"`
 	Sep     string   `json:"sep"`
 	CSep    string   `json:"csep,omitempty"`
+	Trail   string   `json:"trail,omitempty"` // blanks at the end of the line
 }
 
 type BodyItem struct {
@@ -278,6 +279,7 @@ type Tx struct {
 	HC        *Comment   `json:"hc,omitempty"`
 	HCSep     string     `json:"hcsep,omitempty"`
 	Body      []BodyItem `json:"body,omitempty"`
+	Trail     string     `json:"trail,omitempty"` // blanks at the end of the header line
 }
 
 func (t *Tx) Postings() []*Posting {
@@ -703,6 +705,10 @@ func renderTx(r *Rendered, tx *Tx, ei int, line *int, emit func(*lineBuf, LineIn
 		renderComment(b, tx.HC, "comment")
 		feats["tx.header-comment"] = true
 	}
+	if tx.Trail != "" {
+		b.w(tx.Trail)
+		feats["line.trailing-blanks"] = true
+	}
 	emit(b, LineInfo{"header", ei, -1})
 	pi := 0
 	for _, it := range tx.Body {
@@ -797,6 +803,10 @@ func renderTx(r *Rendered, tx *Tx, ei int, line *int, emit func(*lineBuf, LineIn
 			feats["posting.comment"] = true
 			b.w(p.CSep)
 			renderComment(b, p.Comment, "comment")
+		}
+		if p.Trail != "" {
+			b.w(p.Trail)
+			feats["line.trailing-blanks"] = true
 		}
 		emit(b, LineInfo{"posting", ei, pi})
 		pi++
